@@ -188,7 +188,7 @@ fn child_open(a: &[String]) -> ! {
     }
     println!("DUMP {}", dump(&db));
     if flush {
-        let base: u64 = std::env::var("C09_DEADLINE").ok().and_then(|s| s.parse().ok()).unwrap_or(20);
+        let base: u64 = std::env::var("C09_DEADLINE").ok().and_then(|s| s.parse().ok()).unwrap_or(30);
         match with_deadline(base * 3 / 4, { let db = db.clone(); move || db.force_flush() }) {
             Some(Ok(())) => println!("FLUSH ok"),
             Some(Err(_)) => println!("FLUSH panic"),
@@ -220,8 +220,8 @@ fn run_child_once(dir: &Path, io: usize, cf: u64, flush: bool, snap: Option<&Pat
     cmd.stdin(Stdio::null()).stdout(Stdio::piped()).stderr(Stdio::null());
     let mut child = cmd.spawn().expect("spawn child");
     let t0 = Instant::now();
-    // a normal open takes ~0.1 s; C09_DEADLINE (seconds) overrides the ~20 s deadline (the quick tier uses 8 s)
-    let base: u64 = deadline.or(std::env::var("C09_DEADLINE").ok().and_then(|s| s.parse().ok())).unwrap_or(20);
+    // a normal open takes ~0.1 s; C09_DEADLINE (seconds) overrides the 30 s deadline
+    let base: u64 = deadline.or(std::env::var("C09_DEADLINE").ok().and_then(|s| s.parse().ok())).unwrap_or(30);
     let limit = Duration::from_secs(if flush { base * 2 } else { base });
     let status = loop {
         match child.try_wait().unwrap() {
@@ -248,17 +248,12 @@ fn run_child_once(dir: &Path, io: usize, cf: u64, flush: bool, snap: Option<&Pat
 
 static FLAKY: AtomicUsize = AtomicUsize::new(0);
 
-fn has_wal_temp(dir: &Path) -> bool {
-    std::fs::read_dir(dir.join("wal")).map(|rd| rd.flatten().any(|e| !e.file_name().to_string_lossy().ends_with(".wal"))).unwrap_or(false)
-}
-
-/// Open `dir` in a child.  An abnormal outcome (hang / panic / a failed dump query) is re-tried once on a pristine copy of
-/// the same state with the full 20 s deadline, so that a load spike on a shared machine is not reported as a hang; only an
-/// outcome that persists is reported.  (States with a non-`.wal` file in wal/ are not re-tried in the quick tier: that class
-/// is deterministic and slow, see known finding C09-wal-temp.  This affects run time only, never the verdict of a state.)
+/// Open `dir` in a child (deadline `C09_DEADLINE`, default 30 s; a normal open takes ~0.1 s).  An abnormal outcome (hang /
+/// panic / a failed dump query) is re-verified once on a pristine copy of the same state with twice the deadline, so that a
+/// load spike on a shared machine is not reported as a hang; only an outcome that persists is reported.
 fn run_child(dir: &Path, io: usize, cf: u64, flush: bool, snap: Option<&Path>) -> ChildOut {
-    let short = std::env::var("C09_DEADLINE").ok().and_then(|s| s.parse::<u64>().ok()).unwrap_or(20) < 20;
-    let retry = snap.is_none() && !(short && has_wal_temp(dir));
+    let base: u64 = std::env::var("C09_DEADLINE").ok().and_then(|s| s.parse().ok()).unwrap_or(30);
+    let retry = snap.is_none();
     let backup = dir.with_extension("retry");
     if retry { let _ = std::fs::remove_dir_all(&backup); copy_dir(dir, &backup); }
     let mut r = run_child_once(dir, io, cf, flush, snap, None);
@@ -266,7 +261,7 @@ fn run_child(dir: &Path, io: usize, cf: u64, flush: bool, snap: Option<&Path>) -
     if retry && abnormal(&r) {
         let _ = std::fs::remove_dir_all(dir);
         copy_dir(&backup, dir);
-        let r2 = run_child_once(dir, io, cf, flush, snap, Some(20));
+        let r2 = run_child_once(dir, io, cf, flush, snap, Some(base * 2));
         if !abnormal(&r2) { FLAKY.fetch_add(1, Ordering::SeqCst); eprintln!("[c09] flaky open of {:?}: first {:?}, retry ok", dir, r.status); }
         r = r2;
     }
@@ -519,7 +514,6 @@ fn main() {
     let argv: Vec<String> = std::env::args().collect();
     if argv.len() > 1 && argv[1] == "open" { child_open(&argv[2..]); }
     let args = parse_args();
-    if !args.thorough() && std::env::var("C09_DEADLINE").is_err() { std::env::set_var("C09_DEADLINE", "8"); }
     if std::env::var("C09_LOUD").is_err() { quiet_panics(); }
     let mut rng = Rng::new(args.seed);
     let t0 = Instant::now();
@@ -537,8 +531,13 @@ fn main() {
         // debugging / replay: c09 --out DIR shape=<shape>,<io>,<cf> …
         for a in single { let f: Vec<&str> = a[6..].split(',').collect(); plan.push((f[0].to_string(), f[1].parse().unwrap(), f[2].parse().unwrap(), usize::MAX)); }
     } else if !args.thorough() {
-        for (s, io, cf) in quick { plan.push((s.to_string(), io, cf, 26)); }
+        // past-failure corpus first: the witnesses of finding C09-wal-temp (fixed) — one ingestion, crash between
+        // File::create and rename of wal/0.wal (torn and complete temp file), io_threads 1 (panic path) and 4 (hang path);
+        // every crash point, every truncation class, every mode
+        plan.push(("a".to_string(), 4, 4, usize::MAX));
+        for (s, io, cf) in quick { plan.push((s.to_string(), io, cf, if s == "a" { usize::MAX } else { 26 })); }
     } else {
+        plan.push(("a".to_string(), 4, 4, usize::MAX));
         for (s, io, cf) in quick { plan.push((s.to_string(), io, cf, usize::MAX)); }
         // bounded-exhaustive: every shape up to length 3 over {a, c, F, R}, then seeded random shapes up to length 6
         let alpha = ['a', 'c', 'F', 'R'];
